@@ -17,6 +17,18 @@
 
 namespace cb {
 
+// double 仮引数に渡す値を実引数から取り出す。
+// double_value が有効なのは浮動小数点型の実引数だけで、整数型 (int, long, bool,
+// char ...) の実引数は value に入っている。Cb 関数の double 仮引数と同じく double
+// に変換して渡す。
+static double double_argument(const Variable &arg) {
+    if (arg.type == TYPE_FLOAT || arg.type == TYPE_DOUBLE ||
+        arg.type == TYPE_QUAD) {
+        return arg.double_value;
+    }
+    return static_cast<double>(arg.value);
+}
+
 FFIManager::FFIManager() {
     initializeSearchPaths();
     // last_result_を初期化
@@ -215,7 +227,7 @@ Variable FFIManager::callFunction(const std::string &module_name,
             // double func(double)
             typedef double (*func_type)(double);
             func_type func = reinterpret_cast<func_type>(func_ptr);
-            double arg0 = args[0].double_value;
+            double arg0 = double_argument(args[0]);
             result.double_value = func(arg0);
             result.value = static_cast<int64_t>(result.double_value);
             return result;
@@ -225,8 +237,8 @@ Variable FFIManager::callFunction(const std::string &module_name,
             // double func(double, double)
             typedef double (*func_type)(double, double);
             func_type func = reinterpret_cast<func_type>(func_ptr);
-            double arg0 = args[0].double_value;
-            double arg1 = args[1].double_value;
+            double arg0 = double_argument(args[0]);
+            double arg1 = double_argument(args[1]);
             result.double_value = func(arg0, arg1);
             result.value = static_cast<int64_t>(result.double_value);
             return result;
@@ -238,10 +250,10 @@ Variable FFIManager::callFunction(const std::string &module_name,
             // double func(double, double, double, double)
             typedef double (*func_type)(double, double, double, double);
             func_type func = reinterpret_cast<func_type>(func_ptr);
-            double arg0 = args[0].double_value;
-            double arg1 = args[1].double_value;
-            double arg2 = args[2].double_value;
-            double arg3 = args[3].double_value;
+            double arg0 = double_argument(args[0]);
+            double arg1 = double_argument(args[1]);
+            double arg2 = double_argument(args[2]);
+            double arg3 = double_argument(args[3]);
             result.double_value = func(arg0, arg1, arg2, arg3);
             result.value = static_cast<int64_t>(result.double_value);
             return result;
